@@ -211,6 +211,160 @@ def sqlite_facts():
     return form, col, back
 
 
+def sqlite_column_facts():
+    """What the writer DECLARES for a datetime field in create_descriptor_table and in update_descriptor_columns
+    (`column_type = <map>.get(fieldset.typename, <default>)`), and what the reader makes of that declaration."""
+    import flow.record.adapter.sqlite as sq
+    out = {}
+    for key, fn in (("create", sq.create_descriptor_table), ("alter", sq.update_descriptor_columns)):
+        node = _fn_ast(fn)
+        hits = []
+        for st in ast.walk(node):
+            if not (isinstance(st, ast.Assign) and isinstance(st.value, ast.Call)):
+                continue
+            c = st.value
+            if (isinstance(c.func, ast.Attribute) and c.func.attr == "get" and len(c.args) == 2 and not c.keywords
+                    and isinstance(c.args[0], ast.Attribute) and c.args[0].attr == "typename"
+                    and isinstance(c.args[1], ast.Constant) and isinstance(c.args[1].value, str)):
+                m = _eval_in(sq, c.func.value)
+                if not isinstance(m, dict):
+                    raise Unsupported("%s: column type is looked up in %s, not a dict" % (fn.__name__, ast.unparse(c.func.value)))
+                hits.append((m, c.args[1].value))
+        if len(hits) != 1:
+            raise Unsupported("%s: expected exactly one `<map>.get(fieldset.typename, <default>)`, found %d" % (fn.__name__, len(hits)))
+        m, default = hits[0]
+        col = m.get("datetime", default)
+        if not isinstance(col, str):
+            raise Unsupported("%s: column type of a datetime field is %r" % (fn.__name__, col))
+        # reader: ftype = SQLITE_FIELD_MAP.get(ftype, "string")
+        rfn = sq.SqliteReader.read_table
+        rnode = _fn_ast(rfn)
+        rdefault = None
+        for st in ast.walk(rnode):
+            if (isinstance(st, ast.Assign) and isinstance(st.value, ast.Call) and isinstance(st.value.func, ast.Attribute)
+                    and st.value.func.attr == "get" and _eval_in(sq, st.value.func.value) is sq.SQLITE_FIELD_MAP
+                    and len(st.value.args) == 2 and isinstance(st.value.args[1], ast.Constant)):
+                rdefault = st.value.args[1].value
+        if not isinstance(rdefault, str):
+            raise Unsupported("SqliteReader.read_table: no `SQLITE_FIELD_MAP.get(ftype, <default>)`")
+        out[key] = (col, sq.SQLITE_FIELD_MAP.get(col, rdefault))
+    return out
+
+
+# ------------------------------------------------------------------------------------------ entry routes
+# (shared with the check tools/vf/props/c13.py)
+
+ROUTES = [("RCtorKw", "ctor_kw"), ("RCtorPos", "ctor_pos"), ("RSetattr", "setattr"), ("RReplace", "replace"),
+          ("RGroupSetattr", "group_setattr"), ("RNestedGroupSetattr", "nested_group_setattr"), ("RGroupReplace", "group_replace"),
+          ("RInitFromDict", "init_from_dict"), ("RInitFromRecord", "init_from_record"), ("RExtendRecord", "extend_record"),
+          ("RListElem", "list_elem"), ("RListSetattr", "list_setattr")]
+_G = _pydt.datetime(2020, 1, 1, tzinfo=_pydt.timezone.utc)
+
+
+def route_descriptors():
+    from flow.record import RecordDescriptor
+    return dict(
+        D=RecordDescriptor("verif/c13", [("varint", "i"), ("datetime", "ts")]),
+        O=RecordDescriptor("verif/c13other", [("string", "note")]),
+        O2=RecordDescriptor("verif/c13other2", [("string", "remark")]),
+        L=RecordDescriptor("verif/c13list", [("varint", "i"), ("datetime[]", "tss")]),
+        T=RecordDescriptor("verif/c13target", [("datetime", "ts"), ("varint", "i")]),
+    )
+
+
+def enter_route(route, inp, i, ds=None):
+    """Put `inp` into a timestamp field by the given route.
+    -> dict(value=<what the field holds>, record=<plain verif/c13 record or None>, grouped=<GroupedRecord or None>,
+            listrec=<verif/c13list record or None>)"""
+    from flow.record import GroupedRecord
+    from flow.record.base import extend_record
+    ds = ds or route_descriptors()
+    D, O, O2, L, T = ds["D"], ds["O"], ds["O2"], ds["L"], ds["T"]
+    res = dict(record=None, grouped=None, listrec=None)
+    if route == "ctor_kw":
+        r = D(i=i, ts=inp, _generated=_G)
+    elif route == "ctor_pos":
+        r = D(i, inp, None, None, _G)
+    elif route == "setattr":
+        r = D(i=i, _generated=_G)
+        r.ts = inp
+    elif route == "replace":
+        r = D(i=i, _generated=_G)._replace(ts=inp)
+    elif route in ("group_setattr", "nested_group_setattr", "group_replace"):
+        r = D(i=i, _generated=_G)
+        g = GroupedRecord("verif/c13group", [O(note="n", _generated=_G), r])
+        top = g
+        if route == "nested_group_setattr":
+            top = GroupedRecord("verif/c13nest", [O2(remark="m", _generated=_G), g])
+        if route == "group_replace":
+            top = g._replace(ts=inp)
+            r = top.records[1]
+        else:
+            top.ts = inp
+        res["grouped"] = top
+        res["value"] = top.ts
+        res["member_value"] = r.ts
+    elif route == "init_from_dict":
+        r = D.init_from_dict({"i": i, "ts": inp, "_generated": _G, "unknown_key": 1})
+    elif route == "init_from_record":
+        src = T(ts=inp, i=i, _generated=_G)          # goes through the constructor once ...
+        r = D.init_from_record(src)                   # ... and its field value through it again
+    elif route == "extend_record":
+        src = T(ts=inp, i=i, _generated=_G)
+        x = extend_record(O(note="n", _generated=_G), [src])
+        res["value"] = x.ts
+        r = D.init_from_record(x)
+        res["record"] = r
+        return res
+    elif route == "list_elem":
+        lr = L(i=i, tss=[inp], _generated=_G)
+        res["listrec"] = lr
+        res["value"] = lr.tss[0]
+        return res
+    elif route == "list_setattr":
+        lr = L(i=i, _generated=_G)
+        lr.tss = [inp]
+        res["listrec"] = lr
+        res["value"] = lr.tss[0]
+        return res
+    else:
+        raise ValueError(route)
+    res["record"] = r
+    res.setdefault("value", r.ts)
+    return res
+
+
+def route_functions():
+    """For each entry route: the flow.record functions that run (profiler hook, warm run), for a naive object,
+    an ISO text and an epoch number."""
+    import flow.record as fr
+    root = str(Path(fr.__file__).parent)
+    ds = route_descriptors()
+    inputs = [_pydt.datetime(2021, 10, 31, 2, 30), "2021-10-31T02:30:00+01:00", 1.5]
+    res = {}
+    for _, route in ROUTES:
+        for x in inputs:
+            enter_route(route, x, 1, ds)            # warm
+        seen = set()
+
+        def prof(frame, event, arg, seen=seen):
+            if event == "call":
+                co = frame.f_code
+                if co.co_filename.startswith(root):
+                    seen.add("%s:%s" % (co.co_filename[len(root) + 1:-3], co.co_qualname))
+        common = None
+        for x in inputs:
+            seen.clear()
+            sys.setprofile(prof)
+            try:
+                enter_route(route, x, 1, ds)
+            finally:
+                sys.setprofile(None)
+            common = set(seen) if common is None else (common & seen)     # functions that run for EVERY input form
+        res[route] = sorted(common)
+    return res
+
+
 # ------------------------------------------------------------------------------------------ Avro
 
 def avro_facts():
@@ -533,6 +687,8 @@ def gen_time():
     tests, then_form, else_form, pack_type = packer_facts()
     jform = json_form()
     sform, scol, sback = sqlite_facts()
+    scols = sqlite_column_facts()
+    routes = route_functions()
     abase, alogical, aepoch, aepoch_off, aguard, aunit = avro_facts()
     passes, naive_rule, defines = new_facts()
     quirk = fromiso_probe()
@@ -550,6 +706,12 @@ def gen_time():
     out += "Definition gen_sqlite_datetime_form : pk_form := %s.\n" % sform
     out += "Definition gen_sqlite_column_type : string := %s.\n" % cstr(scol)
     out += "Definition gen_sqlite_column_reads_as : string := %s.\n\n" % cstr(sback)
+    out += "(* create_descriptor_table / update_descriptor_columns: declared column type of a datetime field, and the field type\n"
+    out += "   SqliteReader.read_table derives from that declaration *)\n"
+    out += "Definition gen_sqlite_create_column_type : string := %s.\n" % cstr(scols["create"][0])
+    out += "Definition gen_sqlite_create_reads_as : string := %s.\n" % cstr(scols["create"][1])
+    out += "Definition gen_sqlite_alter_column_type : string := %s.\n" % cstr(scols["alter"][0])
+    out += "Definition gen_sqlite_alter_reads_as : string := %s.\n\n" % cstr(scols["alter"][1])
     out += "(* adapter/avro.py: schema of a datetime field, EPOCH, the reader's guard *)\n"
     out += "Definition gen_avro_base_type : string := %s.\n" % cstr(abase)
     out += "Definition gen_avro_logical_type : string := %s.\n" % cstr(alogical)
@@ -572,6 +734,11 @@ def gen_time():
     out += "Definition gen_op_functions (o : dt_op) : list string :=\n  match o with\n"
     for name in OPS_ORDER:
         out += "  | %s =>\n      %s\n" % (name, clist([cstr(x) for x in opf[name]], sep=";\n       "))
+    out += "  end.\n"
+    out += "\n(* flow.record functions that run, for every input form, when a timestamp enters a record by each route (profiler hook) *)\n"
+    out += "Definition gen_route_functions (r : entry_route) : list string :=\n  match r with\n"
+    for cname, route in ROUTES:
+        out += "  | %s =>\n      %s\n" % (cname, clist([cstr(x) for x in routes[route]], sep=";\n       "))
     out += "  end.\n"
     write_if_changed(GEN / "Gen_time.v", out)
 
